@@ -8,6 +8,7 @@ import (
 	"encoding/json"
 	"flag"
 	"fmt"
+	"math/rand"
 	"os"
 	"os/exec"
 	"path/filepath"
@@ -109,6 +110,9 @@ func main() {
 			}
 			res = runFSParent(o, stream, os.Args[2:])
 		}
+	case "foreign-probe":
+		runForeignProbe(*seed, *n, ints(*rss))
+		return
 	default:
 		fmt.Fprintln(os.Stderr, "unknown stream", stream)
 		os.Exit(2)
@@ -322,8 +326,32 @@ func runFS(o fsOpts) *result {
 				if o.mode == "cut" {
 					pivot = o.length
 				}
+				var fg *foreignGen
+				fgReopened := 0
+				if o.mode == "foreign" {
+					fr := rand.New(rand.NewSource(o.seed*1_000_003 + int64(j)))
+					fg = newForeignGen(fr, h.GenForeign(fr, j))
+				}
 				next := func() (h.Call, bool) {
 					i++
+					if fg != nil {
+						switch {
+						case i == 1:
+							return h.Call{Method: "@foreign", Args: fg.spec.Args()}, true
+						case i == 2 || fgReopened == 1:
+							if fgReopened == 1 {
+								fgReopened = 2
+							}
+							return initCall, true
+						case fgReopened == 0 && i >= pivot && len(fg.pending) == 0:
+							// a lost index: the archive plus what was added must survive the rebuild
+							fgReopened = 1
+							return h.Call{Method: "@reopen", Args: []string{"index=drop", "ro=0"}}, true
+						case i > o.length && len(fg.pending) == 0:
+							return h.Call{}, false
+						}
+						return fg.Next(), true
+					}
 					if i == 1 {
 						return initCall, true
 					}
@@ -453,7 +481,19 @@ func runFS(o fsOpts) *result {
 					os.WriteFile(pendPath, []byte(strings.Join(pend, "\n")+"\n"), 0o644)
 					fmt.Printf("P %d %d\n", j, i)
 				}
-				hist, err := h.RunHistoryB(dir, c, id, next, len(o.oracles) > 0, oracleHook(o, dir), before)
+				hook := oracleHook(o, dir)
+				if fg != nil {
+					inner := hook
+					hook = func(i int, s *h.Session, st *h.Step) {
+						if inner != nil {
+							inner(i, s, st)
+						}
+						if has(o.oracles, "C17") {
+							fg.hook(i, s, st)
+						}
+					}
+				}
+				hist, err := h.RunHistoryB(dir, c, id, next, len(o.oracles) > 0, hook, before)
 				os.Remove(pendPath)
 				os.RemoveAll(dir)
 				if err != nil {
